@@ -669,7 +669,7 @@ class CallMixin:
                 return sc.known.pop()
             sc.popped += 1
             return self.scoll_elem(sc, f"pop{sc.popped}")
-        if name in ("add", "update", "extend", "insert", "clear", "discard", "remove", "setdefault"):
+        if name in ("add", "update", "extend", "insert", "clear", "discard", "remove", "setdefault", "difference_update", "intersection_update", "symmetric_difference_update", "sort", "reverse"):
             return Cst(None)
         if name == "get":
             return self.scoll_elem(sc, self.describe(args[0]))
